@@ -18,6 +18,9 @@ pub enum ConnKind {
     /// a TLS client talking to a plain-HTTP port: single-segment ClientHello, answered in clear text
     /// with an HTTP/1.1 error response on the same connection
     TlsThenHttpResponse,
+    /// reverse HTTP: the side that opened the connection sends a response-shaped message and the other side a
+    /// request-shaped one (callback / reverse-proxy tunnels; also what a capture with client and server confused shows)
+    Http1Reversed,
 }
 
 #[derive(Clone, Debug, Serialize, Deserialize)]
@@ -126,6 +129,8 @@ pub fn build(r: &mut Rng, kind: ConnKind, client: Endpoint, server: Endpoint, o:
                 (true, Some(m)) => m,
                 _ => rq,
             };
+            // one exchange in twelve uses bare-LF line ends in its heads, with bodies that contain CRLF CRLF
+            let (rq, rs) = if r.chance(1, 12) { (http1::lf_variant(r, rq), http1::lf_variant(r, rs)) } else { (rq, rs) };
             // one request in twelve carries, as the value of its last header, bytes that are also a complete
             // ClientHello record, and the segment boundary falls exactly in front of them
             match (r.chance(1, 12), tls::ascii_client_hello(r)) {
@@ -147,10 +152,10 @@ pub fn build(r: &mut Rng, kind: ConnKind, client: Endpoint, server: Endpoint, o:
             let announce = kind == ConnKind::Http2Hostile && r.chance(1, 2);
             let big = if kind == ConnKind::Http2 && r.chance(1, 5) { Some(r.urange(16385, 30000)) } else { None };
             let busy = if kind == ConnKind::Http2 && r.chance(1, 16) { r.urange(90, 200) } else { 0 };
-            let (rq, _) = http2::connection_start(r, &http2::Opts { request: true, hostile: if announce { http2::Hostile::None } else { hostile }, fancy_headers: false, odd_order: false, self_ref, continuation: false, big_frame: big, announce_max_frame: announce, huge_block: 0, extra_streams: busy });
+            let (rq, _) = http2::connection_start(r, &http2::Opts { request: true, hostile: if announce { http2::Hostile::None } else { hostile }, fancy_headers: false, odd_order: false, self_ref, continuation: false, big_frame: big, announce_max_frame: announce, huge_block: 0, extra_streams: busy, leading_frames: 0 });
             let hostile_s = if kind == ConnKind::Http2Hostile && r.chance(1, 2) { *r.pick(&[http2::Hostile::SizeZero, http2::Hostile::SizeZeroThenBogus]) } else { http2::Hostile::None };
             let self_ref_s = kind == ConnKind::Http2 && r.chance(1, 2);
-            let (rs, _) = http2::connection_start(r, &http2::Opts { request: false, hostile: hostile_s, fancy_headers: false, odd_order: false, self_ref: self_ref_s, continuation: false, big_frame: None, announce_max_frame: false, huge_block: 0, extra_streams: 0 });
+            let (rs, _) = http2::connection_start(r, &http2::Opts { request: false, hostile: hostile_s, fancy_headers: false, odd_order: false, self_ref: self_ref_s, continuation: false, big_frame: None, announce_max_frame: false, huge_block: 0, extra_streams: 0, leading_frames: 0 });
             (rq, rs)
         }
         ConnKind::TlsThenHttpResponse => {
@@ -159,6 +164,10 @@ pub fn build(r: &mut Rng, kind: ConnKind, client: Endpoint, server: Endpoint, o:
             let c = tls::client_hello(r, &spec);
             let s = http1::response(r, 100).bytes;
             (c, s)
+        }
+        ConnKind::Http1Reversed => {
+            let (rq, rs) = (http1::request(r, 200), http1::response(r, 300));
+            (rs.bytes, rq.bytes)
         }
         ConnKind::Garbage => {
             let n = r.urange(1, 400);
@@ -223,6 +232,28 @@ pub fn build(r: &mut Rng, kind: ConnKind, client: Endpoint, server: Endpoint, o:
             let body = r.bytes(n);
             let (h, a, b, sq, ak, ecr) = if from_client { (&hc, client, server, seq_c, seq_s, hs.tsval(t)) } else { (&hs, server, client, seq_s, seq_c, hc.tsval(t)) };
             steps.push(Step { dt_ns: g, seg: tcp::data(h, a, b, sq, ak, body, t, ecr, pkt::ACK | pkt::RST) });
+        }
+    }
+    // header fields without bearing on the byte stream: on one connection in ten data segments carry the urgent flag
+    // with a pointer inside, at the end of or beyond the segment (or a pointer without the flag), and ECN bits
+    if r.chance(1, 10) {
+        for st in steps.iter_mut().filter(|st| !st.seg.payload.is_empty()) {
+            let n = st.seg.payload.len() as u64;
+            match r.below(4) {
+                0 => {
+                    st.seg.flags |= 0x20;
+                    st.seg.urg_ptr = 1 + r.below(n) as u16;
+                }
+                1 => {
+                    st.seg.flags |= 0x20;
+                    st.seg.urg_ptr = (n as u16).wrapping_add(r.below(40) as u16);
+                }
+                2 => st.seg.urg_ptr = 1 + r.below(n) as u16,
+                _ => {}
+            }
+            if r.chance(1, 4) {
+                st.seg.flags |= *r.pick(&[0x40u8, 0x80, 0xc0]);
+            }
         }
     }
     // hop counts vary: on one connection in eight either side's packets arrive with an arbitrary TTL
